@@ -69,6 +69,9 @@ func main() {
 	if want("adm") {
 		stage("adm", stageAdmission)
 	}
+	if want("mixed") {
+		stage("mixed", stageMixedProfile)
+	}
 	if want("client") {
 		stage("client", stageClient)
 	}
